@@ -57,6 +57,7 @@ type healResult struct {
 	DistinctLocks int
 	Direct        int // correct replicas that committed through the BFT itself
 	Bound         uint64
+	Lies          int // Pacemaker messages for far higher rounds sent by the Byzantine validator during the healed period
 }
 
 // heal runs the healed period on the network the prefix left behind
@@ -96,6 +97,7 @@ func heal(r *sim.Rng, n *bftsim.Net, correct map[int]bool, byzIdx int, maxRounds
 		push(&event{at: int64(r.Intn(3000)), rep: i})
 	}
 	var now int64
+	liar := r.Chance(50)
 	rootNext := int64(-1)
 	if r.Chance(40) {
 		rootNext = 20000 + int64(r.Intn(20000)) // a root-chain block every ~20-40 s
@@ -173,6 +175,22 @@ func heal(r *sim.Rng, n *bftsim.Net, correct map[int]bool, byzIdx int, maxRounds
 		}
 		n.Step(i)
 		flushBag()
+		// the Byzantine validator (below one third) does not stay silent in half of the runs: whenever a correct replica gives up a
+		// round it tells every correct replica that it is far ahead (a Pacemaker message for a much higher round); with less than
+		// one third of the power behind it this must not move anybody
+		if liar && byzIdx >= 0 && rep.B.Phase == bft.Pacemaker && ph != bft.Pacemaker {
+			v := rep.B.View.Copy()
+			v.Round, v.Phase = rd+5+uint64(r.Intn(20)), bft.RoundInterrupt
+			m := &bft.Message{Qc: &lib.QuorumCertificate{Header: v}}
+			if err := m.Sign(n.Keys[byzIdx].Priv); err == nil {
+				if bz, e := lib.Marshal(m); e == nil {
+					for _, j := range live {
+						push(&event{at: now + 1 + int64(r.Intn(50)), rep: -1, env: &bftsim.Env{From: byzIdx, To: j, Bytes: bz, Kind: "PACEMAKER-LIE", Round: v.Round}})
+					}
+					res.Lies++
+				}
+			}
+		}
 		// the time until this replica's next timer: what the IMPLEMENTATION computes (BFT.WaitTime with the replica's own
 		// configuration; after a round interrupt the remaining round time it stored in RoundInterruptTimeoutMS)
 		var wait int64
